@@ -135,6 +135,37 @@ add("C09",
     "trusts vlib/refcal.py; recurrence inputs with an estimated walk above "
     "2e7 days are not executed (legitimately expensive)")
 
+add("C12",
+    "Hypothesis-generated recurrence specs (3 notations, constructor and "
+    "parser) against a point-by-point reference series",
+    "The first points (up to 45, all of a bounded series) are compared with a "
+    "series stepped on the independent calendar model: order, instants, exact "
+    "count and anchor of bounded series, strict monotonicity, library "
+    "step-consistency, single-point cases, and ==/identical iteration of the "
+    "three notations of a finite exact series. Known finding F1 (bounded "
+    "nominal series) is excluded by an executable defect model only. "
+    "Exploration only.",
+    "trusts vlib/refcal.py and the C05 month/year reference; whole seconds")
+add("C13",
+    "Hypothesis-generated recurrences and probe points; model-based oracle = "
+    "the library's own materialised iteration",
+    "get_is_valid, indexing, get_next/get_prev and get_first_after are "
+    "compared with the iterated member list for probes before/on/between/"
+    "after members, members re-spelled in other offsets/representations/"
+    "24:00, and always the last member of a bounded series. Exploration only.",
+    "iteration itself is decided by C12; unbounded series materialised to 60 "
+    "members")
+add("C14",
+    "Hypothesis-generated recurrences, shifts and variant pairs; metamorphic "
+    "and round-trip oracles",
+    "Shifts (r+d, d+r, r-(-d)) must equal a fresh recurrence built from "
+    "reference-shifted anchors, move every member of exact series by len(d), "
+    "invert, and survive str->parse; one-component variants must be unequal; "
+    "re-spellings equal with equal hashes and identical iteration; "
+    "parse(str(r)) == r with the same points. Exploration only.",
+    "trusts vlib/refcal.py; equality of re-spellings demanded for exact "
+    "intervals and unbounded series only")
+
 NOT_YET = {}
 
 
